@@ -287,7 +287,7 @@ Fixpoint lp_back (fuel : nat) (w : node -> Z) (pred : list (node * node)) (cur :
   end.
 Definition longest_path_w (w : node -> Z) (g : graph) : result (list node) :=
   bind (topological_sort g) (fun order =>
-  bind (fold_left (lp_node w g) order (Ok (map (fun n => (n, w n)) (nodes g), []))) (fun st =>
+  bind (fold_left (lp_node w g) order (@Ok lp_state (map (fun n => (n, w n)) (nodes g), []))) (fun st =>
   match fst st with
   | [] => Err E_VALUE
   | x :: l => let '(s, cum) := first_max x l in
